@@ -110,6 +110,20 @@ def run_case(c, stats):
             continue
         total += 1
         call(g.contains, values.word_form(w, total, wrap=Terminal))
+    # the textual epsilon spellings are ordinary unknown symbols when they stand in a word
+    for w in sorted(L, key=lambda x: (len(x), repr(x)))[:4]:
+        for sp in ("$", "epsilon"):
+            call(g.contains, list(w[:1]) + [sp] + list(w[1:]))
+    if total % 4 == 1 and c["prods"]:
+        # a second grammar built from the SAME Production objects plus an epsilon production (other nullable symbols)
+        from pyformlang.cfg import CFG, Production, Variable
+        extra = Production(Variable(gcfg.vval(c, c["prods"][0][0])), [])
+        ok2, g2 = call(CFG, start_symbol=g.start_symbol, productions=set(g.productions) | {extra})
+        if ok2:
+            for w in gcfg.words_over(terms, 3, foreign=False):
+                call(g2.contains, list(w))
+            for w in gcfg.words_over(terms, 2, foreign=False):
+                call(g.contains, list(w))          # ... and the first grammar again
     call(lambda: [] in g)
     call(lambda: terms[:1] in g)
     call(g.generate_epsilon)
